@@ -11,7 +11,6 @@ import (
 
 	"github.com/prometheus/client_golang/prometheus"
 	"github.com/prometheus/prometheus/discovery/targetgroup"
-	"github.com/sirupsen/logrus"
 
 	"tkestack.io/kvass/pkg/discovery"
 	"tkestack.io/kvass/pkg/explore"
@@ -37,6 +36,24 @@ type c20Scenario struct {
 	// QueueCap > 0 shrinks the explorer's work queue (10000 entries in production) so that "more targets asked
 	// for than queue + workers can take" is reachable with three targets
 	QueueCap int `json:"queue_cap,omitempty"`
+	// FailKind: how a failing probe fails: "" transport error, "status" HTTP 503, "midbody" the body breaks
+	// off after two complete samples
+	FailKind string `json:"fail_kind,omitempty"`
+}
+
+// c20Cfg: the jobs of c17Cfg with a metric relabel rule that drops the samples named dropme.
+func c20Cfg(jobs string) string {
+	return strings.Replace(c17Cfg(jobs), "  static_configs:", "  metric_relabel_configs:\n  - {source_labels: [__name__], regex: \"dropme\", action: drop}\n  static_configs:", -1)
+}
+
+// c20Body: kept samples that survive the job's metric relabeling plus three that are dropped.
+func c20Body(kept int) []byte {
+	var sb strings.Builder
+	sb.Write(rig.Payload(kept))
+	for i := 0; i < 3; i++ {
+		fmt.Fprintf(&sb, "dropme{l=\"%d\"} 1\n", i)
+	}
+	return []byte(sb.String())
 }
 
 var c20Kept = map[string]int{"t1": 7, "t2": 11, "t3": 13}
@@ -86,17 +103,33 @@ func c20Run(x *vrt.X, sc c20Scenario, hashes map[string]uint64, info *prom.Confi
 	seq := 0
 	names := c20Names(sc.Targets)
 	sm := kscrape.New(true, h1Quiet())
-	_ = sm.ApplyConfig(info)
+	if sc.Disc == "job-late" {
+		// the job is configured, but its HTTP client cannot be built yet (its CA file does not exist): the
+		// scrape manager has no entry for it until the file appears and the configuration is loaded again
+		broken, err := pipe.LoadInfo(strings.Replace(c20Cfg("A"), "  static_configs:", "  tls_config: {ca_file: /nonexistent/verif-ca.crt}\n  static_configs:", 1))
+		if err != nil {
+			chk.Fatalf("%v", err)
+		}
+		_ = sm.ApplyConfig(broken)
+		if sm.GetJob("A") != nil {
+			chk.Fatalf("HARNESS: the job with a missing CA file has a client")
+		}
+	} else {
+		_ = sm.ApplyConfig(info)
+	}
 	e := explore.New(sm, prometheus.NewRegistry(), h1Quiet())
 	attempts := map[string]int{}
 	kept := c20Kept
 	if sc.QueueCap > 0 {
 		e.VerifSetQueueCap(sc.QueueCap)
 	}
-	e.VerifSetProbe(c20Retry, func(log logrus.FieldLogger, ji *kscrape.JobInfo, url string) (*kscrape.StatisticsSeriesResult, error) {
+	e.VerifSetRetryInterval(c20Retry)
+	// the REAL probe function runs; its requests end in this in-memory transport
+	net := &rig.Targets{}
+	net.Serve = func(req *http.Request) rig.Answer {
 		name, ti := "t1", 0
 		for i, n := range names {
-			if strings.Contains(url, "A-"+n) {
+			if strings.HasPrefix(req.URL.Host, "A-"+n+":") {
 				name, ti = n, i
 			}
 		}
@@ -110,15 +143,28 @@ func c20Run(x *vrt.X, sc c20Scenario, hashes map[string]uint64, info *prom.Confi
 		seq++
 		o.Probes[idx].End = vrt.Now().Sub(start)
 		o.Probes[idx].EndSeq = seq
+		full := c20Body(kept[name])
 		if n < sc.Fails[ti] {
-			return nil, fmt.Errorf("scripted probe failure %d", n)
+			switch sc.FailKind {
+			case "status":
+				return rig.Answer{Status: 503}
+			case "midbody":
+				cut := len(rig.Payload(2)) + 3
+				return rig.Answer{BodyReader: func() io.ReadCloser { return &breakReader{data: full, cut: cut} }}
+			}
+			return rig.Answer{Err: fmt.Errorf("scripted probe failure %d", n)}
 		}
 		o.Probes[idx].OK = true
-		r := kscrape.NewStatisticsSeriesResult()
-		r.ScrapedTotal = float64(kept[name])
-		r.Total = float64(kept[name] + 3)
-		return r, nil
-	})
+		return rig.Answer{Body: full}
+	}
+	setCli := func() {
+		for _, j := range []string{"A", "B"} {
+			if ji := sm.GetJob(j); ji != nil {
+				ji.Cli = &http.Client{Transport: net}
+			}
+		}
+	}
+	setCli()
 	all := func(ns ...string) map[string][]*discovery.SDTargets {
 		m := map[string][]*discovery.SDTargets{"A": {}}
 		for _, n := range ns {
@@ -163,6 +209,12 @@ func c20Run(x *vrt.X, sc c20Scenario, hashes map[string]uint64, info *prom.Confi
 					vrt.Yield("between-updates")
 					e.UpdateTargets(all(names...))
 					mark(o.Readded, "t1")
+				case "job-late":
+					// the CA file has appeared; the configuration is loaded again (every component is told)
+					vrt.Sleep(2 * time.Second)
+					_ = sm.ApplyConfig(info)
+					setCli()
+					_ = e.ApplyConfig(info)
 				case "reload-keep":
 					// a reload that keeps the job (the configuration is parsed afresh, as on SIGHUP)
 					same, _ := pipe.LoadInfo(c17Cfg("A"))
@@ -385,6 +437,10 @@ func init() {
 		if err != nil {
 			chk.Fatalf("%v", err)
 		}
+		sinfo, err := pipe.LoadInfo(c20Cfg("A"))
+		if err != nil {
+			chk.Fatalf("%v", err)
+		}
 		act, _ := pipe.Discovered(info, []map[string][]*targetgroup.Group{{"A": c17Groups('A', 5)}})
 		hashes := map[string]uint64{}
 		sd := map[string]*discovery.SDTargets{}
@@ -411,7 +467,11 @@ func init() {
 								if !c.Thorough() && (gets == 3 || (nt == 2 && w == 2 && f1 == 2)) {
 									continue
 								}
-								scs = append(scs, c20Scenario{Targets: nt, Workers: w, Fails: []int{f1, f2}, Gets: gets, Disc: disc})
+								fk := []string{"", "midbody", "status"}[len(scs)%3]
+								if f1 == 0 && f2 == 0 {
+									fk = ""
+								}
+								scs = append(scs, c20Scenario{Targets: nt, Workers: w, Fails: []int{f1, f2}, Gets: gets, Disc: disc, FailKind: fk})
 							}
 						}
 					}
@@ -431,6 +491,13 @@ func init() {
 				}
 			}
 		}
+		// a job whose client cannot be built when its target is first asked for, repaired two seconds later
+		for _, w := range []int{1, 2} {
+			for _, gets := range []int{1, 2} {
+				scs = append(scs, c20Scenario{Targets: 1, Workers: w, Fails: []int{0, 0}, Gets: gets, Disc: "job-late"})
+				scs = append(scs, c20Scenario{Targets: 2, Workers: w, Fails: []int{1, 0}, Gets: gets, Disc: "job-late"})
+			}
+		}
 		sort.SliceStable(scs, func(i, j int) bool { return false })
 		for si, sc := range scs {
 			if !c.Mine(int64(si)) {
@@ -442,7 +509,7 @@ func init() {
 			}
 			var o *c20Obs
 			distinct := map[string]bool{}
-			st := vrt.Explore(bound, 60000, func(x *vrt.X) { o = c20Run(x, sc, hashes, info, sd) }, func(x *vrt.X) bool {
+			st := vrt.Explore(bound, 60000, func(x *vrt.X) { o = c20Run(x, sc, hashes, sinfo, sd) }, func(x *vrt.X) bool {
 				r.Transitions++
 				d := chk.Digest(o)
 				distinct[d] = true
@@ -453,7 +520,7 @@ func init() {
 					want := chk.JSON(o)
 					for i := 0; i < 3; i++ {
 						var o2 *c20Obs
-						vrt.Replay(picks, func(x *vrt.X) { o2 = c20Run(x, sc, hashes, info, sd) })
+						vrt.Replay(picks, func(x *vrt.X) { o2 = c20Run(x, sc, hashes, sinfo, sd) })
 						if chk.JSON(o2) != want {
 							chk.Fatalf("HARNESS-NONDETERMINISM: C20 replay diverged\n%s\n%s", want, chk.JSON(o2))
 						}
